@@ -4,6 +4,7 @@ import (
 	"bytes"
 	"encoding/binary"
 	"errors"
+	"fmt"
 	"os"
 	"strings"
 	"time"
@@ -72,7 +73,17 @@ func LoadCCache(cpath string) (*CCache, error) {
 }
 
 // Unmarshal a byte slice of credential cache data into CCache type.
-func (c *CCache) Unmarshal(b []byte) error {
+func (c *CCache) Unmarshal(b []byte) (err error) {
+	// The field readers index into the data without checking its length: truncated or inconsistent data
+	// is reported as an error rather than a panic.
+	defer func() {
+		if r := recover(); r != nil {
+			err = fmt.Errorf("invalid credential cache data: %v", r)
+		}
+	}()
+	if len(b) < 2 {
+		return errors.New("Invalid credential cache data. Shorter than two bytes")
+	}
 	p := 0
 	//The first byte of the file always has the value 5
 	if int8(b[p]) != 5 {
@@ -175,11 +186,17 @@ func parseCredential(b []byte, p *int, c *CCache, e *binary.ByteOrder) (cred *Cr
 	// The flags are stored as a 32 bit integer in the byte order of the file (native order for versions 1 and 2).
 	binary.BigEndian.PutUint32(cred.TicketFlags.Bytes, uint32(readInt32(b, p, e)))
 	l := int(readInt32(b, p, e))
+	if l < 0 || l > len(b)-*p {
+		return nil, errors.New("invalid credential cache data: number of addresses exceeds the data")
+	}
 	cred.Addresses = make([]types.HostAddress, l, l)
 	for i := range cred.Addresses {
 		cred.Addresses[i] = readAddress(b, p, e)
 	}
 	l = int(readInt32(b, p, e))
+	if l < 0 || l > len(b)-*p {
+		return nil, errors.New("invalid credential cache data: number of authorization data entries exceeds the data")
+	}
 	cred.AuthData = make([]types.AuthorizationDataEntry, l, l)
 	for i := range cred.AuthData {
 		cred.AuthData[i] = readAuthDataEntry(b, p, e)
